@@ -117,6 +117,11 @@ def add_float_impls(u, which=('Clamp', 'IsBetween', 'Lerp')):
         u.take_impl(P, h, {'lerp_unclamped': C(ensures=['res.v@ == from.v@ + factor.v@ * (to.v@ - from.v@)']),
                            'lerp_unclamped_precise': C(ensures=['res.v@ == from.v@ + factor.v@ * (to.v@ - from.v@)'],
                                                        prologue='proof { crate::lemma_lerp_precise(from.v@, to.v@, factor.v@); }')}, tparams=F)
+        h2 = "impl<'a> Lerp<f32> for &'a f32"
+        u.impl_extra[(P, norm(h2))] = ('open spec fn lerp_req(from: Self, to: Self, factor: R) -> bool { true }\n'
+                                       'open spec fn lerp_spec(from: Self, to: Self, factor: R) -> R { rr(from.v@ + factor.v@ * (to.v@ - from.v@)) }')
+        u.take_impl(P, h2, {'lerp_unclamped': C(ensures=['res.v@ == from.v@ + factor.v@ * (to.v@ - from.v@)']),
+                            'lerp_unclamped_precise': C(ensures=['res.v@ == from.v@ + factor.v@ * (to.v@ - from.v@)'])}, tparams=F)
         u.add_root(lerp_lemma().verus_text('ops'))
         u.extra_lemmas = getattr(u, 'extra_lemmas', []) + [lerp_lemma()]
     if 'Wrap' in which:
